@@ -376,6 +376,11 @@ class Inventory:
         if k == "param":
             return ("Param", t[1], t[2], t[3])
         if k == "arg":
+            # the parameter of a closure handed to `Option::map` & co.: the payload of the receiver
+            recv = self._option_adaptor_receiver(t[1], t[2])
+            if recv is not None and depth < 10:
+                from .symval import _append_path
+                return self.classify(_append_path(recv, (("v", "Some"), ("f", "0")) + tuple(t[3])), depth + 1)
             return ("ClosureArg", t[1], t[2], t[3])
         if k == "field":
             return ("Field", t[1], t[2], t[3])
@@ -448,6 +453,14 @@ class Inventory:
                 return ("Env", np)
             if np in ("std::path::absolute", "std::fs::canonicalize", "std::path::Path::canonicalize"):
                 return ("Abs", self.classify(args[0], depth + 1))
+            if np in ("std::option::Option::<T>::map", "std::option::Option::<T>::and_then") and len(args) == 2 and args[1][0] == "agg" and \
+                    tuple(path)[:2] == (("v", "Some"), ("f", "0")) and depth < 10:
+                # `opt.map(|x| f(x))`: the payload of the result is what the closure returns
+                cb = self.prog.by_path.get(args[1][1])
+                if cb is not None and cb.def_kind == "Closure":
+                    rt = self.sym.of_place(cb, 0, tuple(path)[2:] if np.endswith("::map") else tuple(path))
+                    if rt[0] != "unknown":
+                        return self.classify(rt, depth + 1)
             if np in ("std::path::PathBuf::from", "std::path::PathBuf::new") and not args:
                 return ("Call", np)
             lf = self.prog.fns.get(rp)
@@ -510,6 +523,22 @@ class Inventory:
                 if a.place is not None and a.place.local == holder and not a.place.proj and (
                         self._ITEM_ADAPTORS.match(t.callee.path) or self._ACC_ADAPTORS.match(t.callee.path)):
                     return t.callee.path, self.sym.of_operand(pb, t.args[0])
+        return None
+
+    _OPTION_ADAPTORS = re.compile(r"^std::option::Option::<T>::(map|and_then|filter|inspect|map_or|map_or_else|is_some_and)$")
+
+    def _option_adaptor_receiver(self, closure_path, local):
+        sites = self.prog.ctor_sites.get(closure_path, [])
+        if len(sites) != 1 or local != 2:
+            return None
+        pb, blk_i, idx, rv = sites[0]
+        holder = pb.blocks[blk_i].stmts[idx].place.local
+        for blk, t in pb.calls():
+            if t.callee is None or len(t.args) < 2:
+                continue
+            for ai, a in enumerate(t.args):
+                if ai >= 1 and a.place is not None and a.place.local == holder and not a.place.proj and self._OPTION_ADAPTORS.match(t.callee.path):
+                    return self.sym.of_operand(pb, t.args[0])
         return None
 
     def _adaptor_receiver(self, closure_path, local):
